@@ -32,9 +32,13 @@ THEOREMS = [
     "RefineAscLex.read_char_mk", "RefineAscLex.while1_loop", "RefineAscLex.while2_loop", "RefineAscLex.read_word_mk",
     "RefineAscLex.read_line_mk", "RefineAscLex.lex_loop", "RefineAscLex.init_mk",
 ]
-TRUSTED = ["hand-written character-level lexer model `Asc.lex` in Model/Asc.lean (tied by the c15.convert / asclex correspondence on generated, truncated and "
-           "corrupted documents); the token-level parser model (`Asc.convertTokens`: the `flag` protocol, rows created in `_parse_node` order without "
-           "materialising the AST) is no longer trusted: C15.generated_convert_eq_model proves it equal to the parser and the walk translated from the "
+TRUSTED = ["the character-level lexer model `Asc.lex` in Model/Asc.lean is no longer trusted: C15.generated_lex_eq_model proves it equal (token types and values, on every "
+           "text) to the `Lexer` translated from the source, C15.generated_text_convert_eq_model composes it with the parser theorem; trusted there: the "
+           "translator, the stream model (`read(1)` / `readline()` on the unread characters), `isNumber` = `Asc.looksFloat` for the PINNED `RE_FLOAT` prefix match, "
+           "`parseNumber` = a full match of `SwcText.floatPrefix` for CPython `float()` (design_notes/session4/asclexer.md, items 1-5); a lexer failure BEHIND the "
+           "last token the parser reads (lazy token pulling) is covered by the hand model + asc correspondence only; "
+           "the token-level parser model (`Asc.convertTokens`: the `flag` protocol, rows created in `_parse_node` order without "
+           "materialising the AST) is not trusted either: C15.generated_convert_eq_model proves it equal to the parser and the walk translated from the "
            "source on every token list; what remains trusted there is the translator and its glue (design_notes/session4/ascparser.md, items 1-6)"]
 ASSUMPTIONS = ["ASCII documents; CPython `float()` on the lexer's words (words with underscores or non-ASCII digits are outside the generator)",
                "a well-formed document has exactly one tree, labelled Axon or Dendrite; colour markers are `(Color <word>)`"]
